@@ -13,8 +13,14 @@ def _impl(r):
     return r["detail"].startswith("epc-impl-live") or (r["kind"] == "epc" and r["detail"].startswith("epc-impl-fresh"))
 
 
+def _live_trans(r):
+    # the generator writes a `trans ... ctx=live` line (next to its ctx=fresh twin) only when the long-lived context made
+    # zrnt answer differently from a context computed from scratch: the incoherence observed through a transition
+    return r["kind"] == "trans" and " ctx=live" in (" " + r["step"])
+
+
 def select(r):
-    return (r["kind"] == "epc" and r["detail"].startswith("epc-live")) or _impl(r)
+    return (r["kind"] == "epc" and r["detail"].startswith("epc-live")) or _impl(r) or _live_trans(r)
 
 
 def judge(r):
